@@ -377,6 +377,8 @@ class Gen:
             w = rng.choice(list(used))                      # redeclaration / overload of a name of this scope
             n = next(i for i, s in self.idents if s == w)
             kind, types = used[w]
+            if kind.endswith('_template'):                  # a template's name is shared by its primary and its secondary declarations
+                kind = rng.choice(['primary_template', 'secondary_template'])
             t = rng.choice(types) if rng.random() < 0.6 else None
         else:
             n, w = rng.choice(self.idents) if rng.random() < 0.6 else self.new_ident()
